@@ -9,9 +9,16 @@ only = None
 for a in sys.argv:
   if a.startswith('--only='):
     only = a.split('=', 1)[1]
-src = '/tmp/mut/%s_out/%s' % (pid, k)
-wt = '/tmp/mut/%s' % pid
-out = '/verif/seeded/%s-%s' % (pid, k)
+base = '/tmp/mut'
+outk = k
+for a in sys.argv:
+  if a.startswith('--base='):
+    base = a.split('=', 1)[1]
+  if a.startswith('--outk='):
+    outk = a.split('=', 1)[1]
+src = '%s/%s_out/%s' % (base, pid, k)
+wt = '%s/%s' % (base, pid)
+out = '/verif/seeded/%s-%s' % (pid, outk)
 os.makedirs(out, exist_ok=True)
 for f in ('patch.diff', 'demo.py', 'notes.txt'):
   if os.path.exists(os.path.join(src, f)):
